@@ -325,4 +325,140 @@ theorem fsEventStop_steps (s : State) (id : Nat) : Steps s (fsEventStop s id) :=
   · exact Steps.refl _
   · exact hStop_steps _ _
 
+/-! ### uv_close -/
+theorem updF_same {fl : List (Nat × HFlags)} {id : Nat} {f : HFlags} (h : lookF fl id = some f) : updF fl id f = fl := by
+  induction fl with
+  | nil => rfl
+  | cons e t ih =>
+    by_cases he : (e.1 == id) = true
+    · simp [lookF, he] at h
+      have : e.1 = id := by simpa using he
+      simp [updF, he, ← h, ← this]
+    · have he' : (e.1 == id) = false := by simpa using he
+      simp [lookF, he'] at h
+      simp [updF, he', ih h]
+
+theorem apply_stop_inactive (c : Core) (id : Nat) (h : ((c.get id).map (·.active)).getD false = false) :
+    c.apply id handleStop = c := by
+  unfold Core.apply
+  cases hg : c.get id with
+  | none => rfl
+  | some f =>
+    simp [hg] at h
+    have : handleStop (toHK f c.ah) = toHK f c.ah := by simp [handleStop, toHK, h]
+    simp only [this]
+    have h2 : ofHK (toHK f c.ah) = f := by cases f; rfl
+    rw [h2, updF_same (by simpa [Core.get] using hg)]
+    rfl
+
+theorem closeKind_sig (s : State) (k : Kind) (id : Nat) :
+    sig (closeKind s k id) = ((sig s).1.apply id handleStop, (sig s).2) := by
+  have hw : ∀ wk, sig (watcherStop s wk id) = ((sig s).1.apply id handleStop, (sig s).2) := by
+    intro wk
+    unfold watcherStop
+    split
+    · rename_i hg
+      simp only [sig]
+      rw [apply_stop_inactive s.c id (by simpa [getF] using hg)]
+    · simp only
+      have := sig_setWList s wk ((wList s wk).filter (· != id))
+      simp only [sig, Prod.mk.injEq] at this
+      simp only [sig, hStop, withKernel, this.1, this.2]
+  cases k with
+  | timer => rfl
+  | idle => exact hw .idle
+  | prepare => exact hw .prepare
+  | check => exact hw .check
+  | async => rfl
+  | poll =>
+    show sig (invalidate (hStop (ioStop s (.h id) POLLALL) id) id) = _
+    have := sig_ioStop s (.h id) POLLALL
+    simp only [sig, Prod.mk.injEq] at this
+    simp only [sig, invalidate, hStop, withKernel, this.1, this.2]
+  | tcp =>
+    show sig (modH (hStop (ioClose s id) id) id _) = _
+    have := sig_ioClose s id
+    simp only [sig, Prod.mk.injEq] at this
+    simp only [sig, modH, hStop, withKernel, this.1, this.2]
+  | pipe =>
+    show sig (modH (hStop (ioClose s id) id) id _) = _
+    have := sig_ioClose s id
+    simp only [sig, Prod.mk.injEq] at this
+    simp only [sig, modH, hStop, withKernel, this.1, this.2]
+  | udp =>
+    show sig (modH (hStop (ioClose s id) id) id _) = _
+    have := sig_ioClose s id
+    simp only [sig, Prod.mk.injEq] at this
+    simp only [sig, modH, hStop, withKernel, this.1, this.2]
+  | signal => rfl
+  | fsEvent =>
+    unfold closeKind fsEventStop
+    simp only
+    split
+    · rename_i hg
+      simp only [sig]
+      rw [apply_stop_inactive s.c id (by simpa [getF] using hg)]
+    · rfl
+
+theorem closeH_steps (s : State) (k : Kind) (id : Nat) (h : ∀ f, getF s id = some f → f.closing = false) :
+    Steps s (closeH s k id) := by
+  have hs : sig (closeH s k id) = (s.c.apply id closeK, s.nextId) := by
+    show sig (makeClosePending (closeKind (withKernel s id setClosing) k id) id) = _
+    rw [sig_makeClosePending, closeKind_sig, sig_withKernel]
+    simp only [sig, apply_apply]
+    rfl
+  simp only [sig, Prod.mk.injEq] at hs
+  exact ⟨hs.1 ▸ CStep.close _ _ h, hs.2⟩
+
+/-! ### handle creation -/
+theorem lookF_append_fresh {fl : List (Nat × HFlags)} {id : Nat} {f : HFlags} (h : ∀ e ∈ fl, e.1 < id) :
+    lookF (fl ++ [(id, f)]) id = some f := by
+  induction fl with
+  | nil => simp [lookF]
+  | cons e t ih =>
+    have : (e.1 == id) = false := by
+      have := h e List.mem_cons_self
+      simp; omega
+    simp [lookF, this]
+    exact ih (fun e' he' => h e' (List.mem_cons_of_mem _ he'))
+
+theorem addHandle_inv (s : State) (k : Kind) (hi : SInv s) : SInv (addHandle s k) := by
+  constructor
+  · exact add_inv hi.core
+  · intro e he
+    simp only [addHandle, Core.add, List.mem_append, List.mem_singleton] at he ⊢
+    rcases he with he | he
+    · have := hi.ids e he; omega
+    · subst he; simp
+
+theorem addHandle_fresh (s : State) (k : Kind) (hi : SInv s) :
+    ∀ f, getF (addHandle s k) s.nextId = some f → f.closing = false := by
+  intro f hf
+  have := lookF_append_fresh (fl := s.c.fl) (id := s.nextId) (f := ofHK (handleInit s.c.ah)) hi.ids
+  simp only [getF, addHandle, Core.add, Core.get] at hf
+  rw [this] at hf
+  cases hf
+  rfl
+
+theorem initH_inv (s : State) (k : Kind) (hi : SInv s) : SInv (initH s k) := by
+  unfold initH
+  simp only
+  have ha := addHandle_inv s k hi
+  have hf := addHandle_fresh s k hi
+  cases k with
+  | timer => exact SInv.of_sig (s := addHandle s .timer) rfl ha
+  | async =>
+    have h1 : SInv { addHandle s .async with asyncs := (addHandle s .async).asyncs ++ [s.nextId] } :=
+      SInv.of_sig (s := addHandle s .async) rfl ha
+    exact (hStart_steps _ _ (by intro f h; exact hf f h)).inv h1
+  | poll => exact SInv.of_sig (s := addHandle s .poll) rfl ha
+  | idle => exact ha
+  | prepare => exact ha
+  | check => exact ha
+  | tcp => exact ha
+  | udp => exact ha
+  | pipe => exact ha
+  | signal => exact ha
+  | fsEvent => exact ha
+
 end UvModel.Loop
